@@ -155,7 +155,14 @@ impl Cx {
     pub fn drain_panics(&mut self) {
         for (op, msg) in api::panics_take() {
             let short: String = msg.chars().take(80).collect();
-            self.violate(&format!("panic/{}", op), format!("API call {} panicked: {}", op, short));
+            if self.property == "C12" {
+                self.violate(&format!("panic/{}", op), format!("API call {} panicked: {}", op, short));
+            } else {
+                // a panic is a violation of C12, not of the property this driver decides; here it only means that the
+                // driver could not use that call's result (reported as a failed precondition: exit 2 unless the
+                // driver also finds a violation of its own property)
+                self.violate(&format!("honest-step/panic/{}", op), format!("API call {} panicked (C12's business): {}", op, short));
+            }
         }
     }
 }
